@@ -86,4 +86,15 @@ theorem term_reproduces_training_data (st : LState) (x : List Q) (hd : st.grids.
     (predictT 0 st rows x).getD o 0 = (rows.getD n []).getD o 0 :=
   predictT_at_node st x hd hgood rows o ho hrows n hn hx
 
+
+/-- the result is linear in the model's outputs: a term built from the data `a·y₁ + b·y₂` predicts `a·(term of y₁) +
+    b·(term of y₂)` (and the weighted sum over indices is linear by definition) -/
+theorem term_linear_in_data (tol : Q) (st : LState) (x : List Q) (rows r1 r2 : List (List Q)) (a b : Q) (o : ℕ)
+    (ho : o < (rows.head?.map List.length).getD 0) (ho1 : o < (r1.head?.map List.length).getD 0)
+    (ho2 : o < (r2.head?.map List.length).getD 0)
+    (hl1 : r1.length = rows.length) (hl2 : r2.length = rows.length)
+    (h : ∀ n, n < rows.length → (rows.getD n []).getD o 0 = a * (r1.getD n []).getD o 0 + b * (r2.getD n []).getD o 0) :
+    (predictT tol st rows x).getD o 0 = a * (predictT tol st r1 x).getD o 0 + b * (predictT tol st r2 x).getD o 0 :=
+  tensorSum_lincomb _ _ rows r1 r2 a b o ho ho1 ho2 hl1 hl2 h
+
 end Amisc.C05
